@@ -82,6 +82,9 @@ class FuncRef(namedtuple("FuncRef", "name")):
     __slots__ = ()
 
 
+SliceV = namedtuple("SliceV", "lo hi step")  # the bounds of a slice, for domains with slice_values = True
+
+
 class LambdaV(namedtuple("LambdaV", "node closure")):
     """A lambda expression as a value: its node plus the values its free variables had where it was created."""
 
@@ -1246,7 +1249,13 @@ class Interp:
     def e_Slice(self, e, state, ctx):
         parts = [p for p in (e.lower, e.upper, e.step) if p is not None]
         oks, excs = self.ev_seq(parts, state, ctx)
-        return [(TOP, s) for vals, s in oks], excs
+        if not getattr(self.dom, "slice_values", False):
+            return [(TOP, s) for vals, s in oks], excs
+        out = []
+        for vals, s in oks:
+            it = iter(vals)
+            out.append((SliceV(*[next(it) if p is not None else NONE for p in (e.lower, e.upper, e.step)]), s))
+        return out, excs
 
     def e_Subscript(self, e, state, ctx):
         oks, excs = self.ev_seq([e.value, e.slice], state, ctx)
@@ -1425,13 +1434,18 @@ class Interp:
     def _comp(self, e, elts, state, ctx):
         """Comprehension: evaluate the generators' iterables, bind targets to an abstract element,
         evaluate conditions and the element expression once (so calls inside become events)."""
+        for g in e.generators:
+            if not hasattr(g, "lineno"):
+                g.lineno = getattr(g.iter, "lineno", getattr(e, "lineno", 0))  # domains key loop facts by line
+        if getattr(self.dom, "comp_sequential", False):
+            r = self._comp_sequential(e, elts, state, ctx)
+            if r is not None:
+                return r
         excs = []
         cur = [state]
         dropped = []  # states of elements filtered out by an `if` (their effects on the state still happened)
         for g in e.generators:
             nxt = []
-            if not hasattr(g, "lineno"):
-                g.lineno = getattr(g.iter, "lineno", getattr(e, "lineno", 0))  # domains key loop facts by line
             for s in cur:
                 oks, ex = self.ev(g.iter, s, ctx)
                 excs += ex
@@ -1481,6 +1495,75 @@ class Interp:
         self.dom.comp_exact = len(st_out) == 1
         for s_clean, vs in st_out.items():
             out.append(self.dom.comprehension_s(e, vs, s_clean))
+        return out, excs
+
+    def _comp_sequential(self, e, elts, state, ctx):
+        """Comprehension over iterables whose elements are all known (exact-collection domains): the elements are
+        produced one after the other, each from the state the previous one left - what the element expression does to
+        the state (a call that is recorded, an allocation) happens once per element, in order.  None if some iterable
+        is not known exactly (the caller then falls back to the abstract-element evaluation)."""
+        gens = e.generators
+        excs = []
+
+        class _Unknown(Exception):
+            pass
+
+        def produce(gi, s, acc):
+            if gi == len(gens):
+                oks, ex = self.ev_seq(elts, s, ctx)
+                excs.extend(ex)
+                return [(acc + (tuple(vals),), s1) for vals, s1 in oks]
+            g = gens[gi]
+            oks, ex = self.ev(g.iter, s, ctx)
+            excs.extend(ex)
+            out = []
+            for itv, s1 in oks:
+                seq, s1 = self.dom.consume(itv, s1)
+                if seq is None:
+                    raise _Unknown()
+                g._itval = itv
+                cur = [(acc, s1)]
+                for elem in seq:
+                    nxt = []
+                    for a, st in cur:
+                        o2, e2 = self.assign(g.target, elem, st, ctx)
+                        excs.extend(e2)
+                        for s3 in o2:
+                            passing = [s3]
+                            for c in g.ifs:
+                                n2 = []
+                                for s4 in passing:
+                                    ts, fs, e3 = self.cond(c, s4, ctx)
+                                    excs.extend(e3)
+                                    n2 += ts
+                                    nxt += [(a, s5) for s5 in fs]
+                                passing = n2
+                            for s4 in passing:
+                                nxt += produce(gi + 1, s4, a)
+                    cur = nxt
+                    if len(cur) > 256:
+                        raise _Unknown()
+                out += cur
+            return out
+
+        try:
+            results = produce(0, state, ())
+        except _Unknown:
+            return None
+        out = []
+        seen = set()
+        for acc, s in results:
+            s_clean = s
+            for g in gens:
+                for n in ast.walk(g.target):
+                    if isinstance(n, ast.Name):
+                        s_clean = self.dom.name_store(n.id, state.get(n.id, TOP), s_clean, n) if isinstance(state, Env) and state.has(n.id) else (self.dom.name_del(n.id, s_clean) if isinstance(s_clean, Env) else s_clean)
+            key = (acc, s_clean)
+            if key in seen:
+                continue
+            seen.add(key)
+            self.dom.comp_exact = True
+            out.append(self.dom.comprehension_s(e, list(acc), s_clean))
         return out, excs
 
     def e_ListComp(self, e, state, ctx):
